@@ -23,6 +23,8 @@ RULES = {
     "R-RETAIN-SHAPE": ("rules.iters", "r_retain_shape"),
     "R-EXTRACT-NODROP": ("rules.iters", "r_extract_nodrop"),
     "R-MANYMUT": ("rules.iters", "r_manymut"),
+    "R-CURSOR-STATE": ("rules.iters", "r_cursor_state"),
+    "R-REHASH-LOOP": ("rules.iters", "r_rehash_loop"),
     "R-ACCT": ("rules.acct", "r_acct"),
     "R-CTRL-WRITE": ("rules.acct", "r_ctrl_write"),
     "R-ERASE-BEFORE": ("rules.ownership", "r_erase_before"),
@@ -100,7 +102,7 @@ PROPS["C01"] = {
 }
 
 PROPS["C09"] = {
-    "rules": ["R-ITEMS-GUARD", "R-FORWARD", "R-CLONE-FIELDS", "R-DEFAULT-EMPTY"],
+    "rules": ["R-ITEMS-GUARD", "R-CURSOR-STATE", "R-FORWARD", "R-CLONE-FIELDS", "R-DEFAULT-EMPTY"],
     "level": "other",
     "decided": "the count-bounded group walk is guarded by items != 0 and decrements items exactly once per yielded element, size_hint is (items, Some(items)), fold receives items (R-ITEMS-GUARD: fused, exact length reporting); "
                "every wrapper iterator forwards next/size_hint/fold/len to the same inner cursor (R-FORWARD); hand-written Clone impls copy field i from field i (R-CLONE-FIELDS); default iterators are built over the static empty table (R-DEFAULT-EMPTY)",
@@ -124,7 +126,7 @@ PROPS["C15"] = {
 }
 
 PROPS["C05"] = {
-    "rules": ["R-PROBE-STOP", "R-MANYMUT", "R-EQ-NOEFFECT", "R-SLOT-FRESH", "R-ACCT", "R-ITEMS-GUARD"],
+    "rules": ["R-PROBE-STOP", "R-MANYMUT", "R-EQ-NOEFFECT", "R-SLOT-FRESH", "R-REHASH-LOOP", "R-ACCT", "R-ITEMS-GUARD"],
     "level": "other",
     "decided": "probe termination never depends on eq/hash answers, only on an EMPTY byte (R-PROBE-STOP) whose existence is the free-slot accounting (R-ACCT); aliasing in get_many_mut is decided by pointer identity, not by the user's eq (R-MANYMUT); "
                "no accounting store depends on an eq answer (R-EQ-NOEFFECT); a slot found before a rehash is never used after it (R-SLOT-FRESH); iteration is bounded by items (R-ITEMS-GUARD)",
